@@ -1,12 +1,204 @@
-(** C18 - a failed calculation leaves the simulation consistent and reusable (statements). *)
+(** C18 - A failed calculation leaves the simulation consistent and reusable.
+    Only statements here; proofs are in proofs/EngineC18Proofs.v (and proofs/EngineProofs.v).
+
+    Vocabulary (coq/model/Engine.v): [calc] is the machine (Simulation.calculate: push on
+    the evaluation stack, _calculate, and in the "finally" pop and purge); a failure is an
+    answer [Err kind]: a formula that raises ([ERaise k] while switch [k] is in
+    [switches sy]), a dependency on a text that is not a period ([PBad]), on an unknown
+    variable (an index outside [vars sy]), on a period of the wrong unit
+    ([check_consistency]), a circular definition ([ECycle]).  [step]/[run] execute
+    top-level requests; [RSwitch k false] turns the raise switch [k] off, [RSetInput] is
+    Simulation.set_input.  [sem]/[sem_answer sy pp inp r] is the meaning of a request in
+    rule system [sy] on population [pp] and inputs [inp]: no cache, no stack, no history.
+    [ranked sy]: formulas only read variables of smaller number (or unknown ones) and
+    eternal variables have no formula.  [Top sy pp inp s]: [s] is a state between two
+    top-level requests - empty stack, nothing marked invalid - whose cache holds the
+    inputs and otherwise only meanings ([Inv]).  [above v (stack s)]: the frames on the
+    stack (the computations in progress) all belong to variables ranked above [v].
+
+    FullTracer._current_node is not part of the machine state; the evaluation stack
+    (tracer.stack) and the invalidated set are.  The cursor is checked on the
+    implementation by harness/c18.py. *)
 From Coq Require Import ZArith List Bool Arith String.
-From Verif Require Import Base Cal Period Engine EngineProofs.
+From Verif Require Import Base Cal Period Engine EngineProofs EngineC18Proofs.
 Import ListNotations.
 Open Scope nat_scope.
+Local Notation length := List.length.
 
-Theorem failure_transparent_tmp : forall sy pp inp, ranked sy = true -> 1 <= max_loops sy ->
-  forall rs s, forallb is_calc_request rs = true -> Top sy pp inp s ->
-  snd (run (enough_fuel sy) sy pp s rs) = map (sem_answer sy pp inp) rs
-  /\ Top sy pp inp (fst (run (enough_fuel sy) sy pp s rs)).
-Proof. exact run_refines_meaning. Qed.
-Print Assumptions failure_transparent_tmp.
+(** ** Every rule system, self-dependent (spiralling) ones included *)
+
+(** After every [calculate], successful or not, at any depth, the evaluation stack is the
+    stack before. *)
+Theorem stack_restored : forall fuel sy pp s v p, stack (fst (calc fuel sy pp s v p)) = stack s.
+Proof. exact calc_stack. Qed.
+Print Assumptions stack_restored.
+
+(** After every top-level request of any kind and whatever its answer: empty stack, and
+    nothing left marked invalid (the purge of the "finally" ran). *)
+Theorem request_leaves_stack_empty_and_purged : forall fuel sy pp s r,
+  stack s = [] /\ invalid s = [] ->
+  stack (fst (step fuel sy pp s r)) = [] /\ invalid (fst (step fuel sy pp s r)) = [].
+Proof. exact step_quiet. Qed.
+Print Assumptions request_leaves_stack_empty_and_purged.
+
+Theorem requests_leave_stack_empty_and_purged : forall rs fuel sy pp s,
+  stack s = [] /\ invalid s = [] ->
+  stack (fst (run fuel sy pp s rs)) = [] /\ invalid (fst (run fuel sy pp s rs)) = [].
+Proof. exact run_quiet. Qed.
+Print Assumptions requests_leave_stack_empty_and_purged.
+
+(** ** Ranked rule systems *)
+
+(** A top-level request that fails: the stack is empty again, nothing is marked invalid,
+    every cache entry is still an input or a meaning (so the sub-results completed before
+    the failure are correct), nothing that was in the cache was lost or changed, and no
+    entry was recorded for the requested variable or any variable ranked above it. *)
+Theorem failure_atomic : forall sy pp inp, ranked sy = true -> 1 <= max_loops sy ->
+  forall s v p e, Top sy pp inp s ->
+  snd (calc (enough_fuel sy) sy pp s v p) = Err e ->
+  let s' := fst (calc (enough_fuel sy) sy pp s v p) in
+  stack s' = [] /\ invalid s' = []
+  /\ Top sy pp inp s'
+  /\ (forall k a, lookup k (cache s) = Some a -> lookup k (cache s') = Some a)
+  /\ (forall k, v <= fst k -> lookup k (cache s') = lookup k (cache s)).
+Proof. exact failure_atomic_top. Qed.
+Print Assumptions failure_atomic.
+
+(** The same for calculate_add and calculate_divide, failed or not. *)
+Theorem failure_atomic_request : forall sy pp inp, ranked sy = true -> 1 <= max_loops sy ->
+  forall s r, is_calc_request r = true -> Top sy pp inp s ->
+  Top sy pp inp (fst (step (enough_fuel sy) sy pp s r))
+  /\ (forall k a, lookup k (cache s) = Some a ->
+                  lookup k (cache (fst (step (enough_fuel sy) sy pp s r))) = Some a).
+Proof. exact step_top_grows. Qed.
+Print Assumptions failure_atomic_request.
+
+(** Every computation, at any depth of the evaluation (the frames below it on the stack
+    belong to variables ranked above [v]): the cache only grows; entries of the variables
+    ranked above [v] - the computations in progress - are untouched; and if the
+    computation of [v] fails, no entry of [v] is recorded either.  Since an error
+    propagates through every frame in progress, no frame that was on the stack when the
+    error was raised gets a value. *)
+Theorem no_entry_for_unfinished : forall sy pp inp, ranked sy = true -> 1 <= max_loops sy ->
+  forall v fuel p s, v < fuel -> Inv sy pp inp s -> above v (stack s) ->
+  let s' := fst (calc fuel sy pp s v p) in
+  (forall k a, lookup k (cache s) = Some a -> lookup k (cache s') = Some a)
+  /\ (forall k, S v <= fst k -> lookup k (cache s') = lookup k (cache s))
+  /\ (forall e, snd (calc fuel sy pp s v p) = Err e ->
+      forall k, v <= fst k -> lookup k (cache s') = lookup k (cache s)).
+Proof. exact calc_frame. Qed.
+Print Assumptions no_entry_for_unfinished.
+
+(** Later requests behave as on a simulation where the failed request was never made:
+    with or without request [r] in the sequence, every other request gets the same answer,
+    the meaning of that request on the inputs. *)
+Theorem failure_transparent : forall sy pp inp, ranked sy = true -> 1 <= max_loops sy ->
+  forall rs1 r rs2 s,
+  forallb is_calc_request (rs1 ++ r :: rs2) = true -> Top sy pp inp s ->
+  snd (run (enough_fuel sy) sy pp s (rs1 ++ r :: rs2))
+    = map (sem_answer sy pp inp) rs1 ++ sem_answer sy pp inp r :: map (sem_answer sy pp inp) rs2
+  /\ snd (run (enough_fuel sy) sy pp s (rs1 ++ rs2))
+    = map (sem_answer sy pp inp) rs1 ++ map (sem_answer sy pp inp) rs2.
+Proof. exact removed_request_unseen. Qed.
+Print Assumptions failure_transparent.
+
+Theorem failure_transparent_state : forall sy pp inp, ranked sy = true -> 1 <= max_loops sy ->
+  forall s r rs,
+  is_calc_request r = true -> forallb is_calc_request rs = true -> Top sy pp inp s ->
+  snd (run (enough_fuel sy) sy pp (fst (step (enough_fuel sy) sy pp s r)) rs)
+    = snd (run (enough_fuel sy) sy pp s rs)
+  /\ snd (run (enough_fuel sy) sy pp s rs) = map (sem_answer sy pp inp) rs.
+Proof. exact failed_request_transparent. Qed.
+Print Assumptions failure_transparent_state.
+
+(** Cause removed by turning the raise off: requests [rs1] (some fail because switch [k]
+    is on), then the switch is turned off, then requests [rs2] (the failed ones again, for
+    instance): these return their meaning in the rule system without the switch - under
+    the cache filled while the switch was on. *)
+Theorem succeeds_once_cause_removed : forall sy pp inp, ranked sy = true -> 1 <= max_loops sy ->
+  forall k rs1 rs2 s,
+  forallb is_calc_request rs1 = true -> forallb is_calc_request rs2 = true -> Top sy pp inp s ->
+  snd (run (enough_fuel sy) sy pp s (rs1 ++ RSwitch k false :: rs2))
+    = map (sem_answer sy pp inp) rs1 ++ ANone :: map (sem_answer (set_switch sy k false) pp inp) rs2
+  /\ Top (set_switch sy k false) pp inp (fst (run (enough_fuel sy) sy pp s (rs1 ++ RSwitch k false :: rs2))).
+Proof. exact switch_off_then_meaning. Qed.
+Print Assumptions succeeds_once_cause_removed.
+
+(** What was cached while a switch was on is still right once it is off. *)
+Theorem cache_survives_switch_off : forall sy pp inp k s,
+  Top sy pp inp s -> Top (set_switch sy k false) pp inp s.
+Proof. exact Top_switch_off. Qed.
+Print Assumptions cache_survives_switch_off.
+
+(** Cause removed by set_input on the failing node [(v, p)] (its meaning is an error):
+    when the input is accepted, every later request returns its meaning on the inputs
+    extended with the given array - under the cache filled before. *)
+Theorem succeeds_once_input_given : forall sy pp inp, ranked sy = true -> 1 <= max_loops sy ->
+  forall v x p a e s rs,
+  nth_error (vars sy) v = Some x -> v_neutral x = false ->
+  sem sy pp inp v p = Err e ->
+  Top sy pp inp s ->
+  set_input sy pp s v p a = (put (v, norm x p) (cast x a) s, ANone) ->
+  forallb is_calc_request rs = true ->
+  snd (run (enough_fuel sy) sy pp s (RSetInput v p a :: rs))
+    = ANone :: map (sem_answer sy pp (((v, norm x p), cast x a) :: inp)) rs
+  /\ Top sy pp (((v, norm x p), cast x a) :: inp)
+         (fst (run (enough_fuel sy) sy pp s (RSetInput v p a :: rs))).
+Proof. exact input_given_then_meaning. Qed.
+Print Assumptions succeeds_once_input_given.
+
+(** ** Non-vacuity *)
+
+Definition ex_pop : popu :=
+  {| grp := {| Group.g_entity := {| Group.e_key := "household"%string; Group.e_roles := []; Group.e_containing := [] |};
+               Group.g_count := 2; Group.g_ids := [0; 1; 0]; Group.g_roles := [0; 0; 0] |} |}.
+
+(** v0 input; v1 = v0 + 1; v2 = v1 + (raise 0); v3 = v2 + v(unknown) ; switch 0 is on *)
+Definition ex_sys : sys :=
+  {| vars := [ mk_var EPerson TInt Month None [] 0%Z false false;
+               mk_var EPerson TInt Month None [((1, 1, 1)%Z, EBin BAdd (EDep 0 PSame OPlain) (EConst 1))] 0%Z false false;
+               mk_var EPerson TInt Month None [((1, 1, 1)%Z, EBin BAdd (EDep 1 PSame OPlain) (ERaise 0))] 0%Z false false;
+               mk_var EPerson TInt Month None [((1, 1, 1)%Z, EBin BAdd (EDep 2 PSame OPlain) (EDep 9 PSame OPlain))] 0%Z false false ];
+     params := []; switches := [0]; max_loops := 1 |}.
+Definition ex_p : period := (Month, (2018, 3, 1)%Z, 1%Z).
+Definition ex_inp : inputs := [((0, ex_p), [10; 20; 30]%Z)].
+
+Example ex_ranked : ranked ex_sys = true /\ 1 <= max_loops ex_sys.
+Proof. split; [reflexivity|apply le_n]. Qed.
+
+(** the request fails in the formula of v2, after v1 was completed: v1 is recorded with its
+    meaning, v2 is not, the stack is empty *)
+Example ex_fails :
+  calc (enough_fuel ex_sys) ex_sys ex_pop (init ex_inp) 2 ex_p
+  = ({| cache := [((1, ex_p), [11; 21; 31]%Z); ((0, ex_p), [10; 20; 30]%Z)]; stack := []; invalid := [] |},
+     Err EOther).
+Proof. vm_compute. reflexivity. Qed.
+
+(** fail, switch off, same request: the value; then the unknown-variable failure of v3, then v1 *)
+Example ex_recovers :
+  snd (run (enough_fuel ex_sys) ex_sys ex_pop (init ex_inp)
+         [RCalc 2 ex_p; RSwitch 0 false; RCalc 2 ex_p; RCalc 3 ex_p; RCalc 1 ex_p])
+  = [AErr EOther; ANone; AVal [11; 21; 31]%Z; AErr ENotFound; AVal [11; 21; 31]%Z].
+Proof. vm_compute. reflexivity. Qed.
+
+(** the failing node v2 is given as an input: v2 then answers the input *)
+Example ex_input_given :
+  sem ex_sys ex_pop ex_inp 2 ex_p = Err EOther
+  /\ set_input ex_sys ex_pop (init ex_inp) 2 ex_p [7; 8; 9]%Z
+     = (put (2, ex_p) [7; 8; 9]%Z (init ex_inp), ANone)
+  /\ snd (run (enough_fuel ex_sys) ex_sys ex_pop (init ex_inp)
+            [RCalc 2 ex_p; RSetInput 2 ex_p [7; 8; 9]%Z; RCalc 2 ex_p])
+     = [AErr EOther; ANone; AVal [7; 8; 9]%Z].
+Proof. vm_compute. auto. Qed.
+
+(** a self-dependent system (v0 reads itself one month earlier: spiral; v1 = v0 + raise):
+    the request fails after a spiral tainted the cache; stack empty, nothing left invalid,
+    and the tainted entry of v0 was purged *)
+Definition ex_spiral : sys :=
+  {| vars := [ mk_var EPerson TInt Month None [((1, 1, 1)%Z, EBin BAdd (EDep 0 PLastMonth OPlain) (EConst 1))] 0%Z false false;
+               mk_var EPerson TInt Month None [((1, 1, 1)%Z, EBin BAdd (EDep 0 PSame OPlain) (ERaise 0))] 0%Z false false ];
+     params := []; switches := [0]; max_loops := 1 |}.
+Example ex_spiral_fails :
+  ranked ex_spiral = false
+  /\ calc (enough_fuel ex_spiral) ex_spiral ex_pop (init []) 1 ex_p = (init [], Err EOther).
+Proof. vm_compute. auto. Qed.
